@@ -325,11 +325,6 @@ def run (c : Cfg) (s : State) : List Env → State × List Out
     let q := run c r.1 es
     (q.1, r.2 :: q.2)
 
-/-- the states after every call of a run prefix -/
-def traj (c : Cfg) (s : State) : List Env → List State
-  | [] => []
-  | e :: es => (step c s e).1 :: traj c (step c s e).1 es
-
 /-- all requests of a list of outputs, in order -/
 def allReqs (outs : List Out) : List Req := outs.flatMap (·.req)
 
